@@ -78,6 +78,7 @@ class Obj:
         self.cells = {}      # byte offset -> (width, value)
         self.freed = False
         self.param = None
+        self.zeroed = False      # calloc: bytes not written yet read as zero
 
 
 class Ptr:
@@ -255,9 +256,13 @@ class Interp:
             raise UB('%s out of bounds: %s object %s of size %d, offset %d, width %d' % (what, p.obj.kind, p.obj.name, p.obj.size, off, width))
         return off
 
-    def load(self, p, width):
+    def load(self, p, width, ty=None):
         self.checks['loads'] += 1
         off = self._chk(p, width, 'load')
+        if off not in p.obj.cells and p.obj.zeroed and not any(o < off + width and o + w > off for o, (w, _) in p.obj.cells.items()):
+            if ty is not None and ty.strip().endswith('*'): return NULL
+            if ty is not None and ty.strip() == 'double': return Fraction(0)
+            return 0
         if off not in p.obj.cells:
             raise UB('load of uninitialised memory %s+%d (%s object)' % (p.obj.name, off, p.obj.kind))
         w, v = p.obj.cells[off]
@@ -326,6 +331,8 @@ class Interp:
                     prev, lab = lab, r[1]; break
                 if r[0] == 'ret':
                     for o in frame_objs: o.freed = True
+                    if name in ('single_anneal_quso', 'single_anneal_puso'):
+                        self.events.append(('ret', name))
                     return r[1]
             else:
                 raise Unsupported('fell off block')
@@ -369,7 +376,7 @@ class Interp:
                     vals.append(self.load(Ptr(p.obj, p.off + o), sizeof(fty, S))); o += sizeof(fty, S)
                 env[dst] = tuple(vals)
             else:
-                env[dst] = self.load(p, sizeof(ty, S))
+                env[dst] = self.load(p, sizeof(ty, S), ty)
         elif op == 'getelementptr':
             parts = split_top(re.sub(r'^getelementptr (?:inbounds )?', '', rhs))
             ty, base = parts[0], self.val(parts[1].split()[-1], env)
@@ -555,6 +562,12 @@ def base_stubs():
     def malloc(it, n):
         return it.alloc(n, 'heap')
 
+    def calloc(it, k, n):
+        if isinstance(k, Sym): k = int(k)
+        if isinstance(n, Sym): n = int(n)
+        q = it.alloc(k * n, 'heap'); q.obj.zeroed = True
+        return q
+
     def realloc(it, p, n):
         if isinstance(n, Sym): n = int(n)
         q = it.alloc(n, 'heap')
@@ -593,7 +606,7 @@ def base_stubs():
             ctx.assume(z3.And(ctx.z(k) >= 0, ctx.z(k) < ctx.z(stop)))
         v = int(k); it.events.append(('rand_int', v, stop)); return v
 
-    return {'malloc': malloc, 'realloc': realloc, 'free': free, 'rand_init': rand_init, 'rand_double': rand_double,
+    return {'malloc': malloc, 'calloc': calloc, 'realloc': realloc, 'free': free, 'rand_init': rand_init, 'rand_double': rand_double,
             'rand_int': rand_int, 'exp': stub_exp, 'llvm.fmuladd.f64': lambda it, a, b, c: a * b + c,
             'llvm.dbg.declare': lambda it, *a: None}
 
